@@ -63,6 +63,15 @@ type workerRun struct {
 	sentRaw map[common.Hash]string // their wire bytes
 	poolLog map[string]int
 	lastErr map[string]string
+	// origin of the blocks being replayed ("" = assembled by the node's own worker); prefixes signatures and classes
+	origin string
+}
+
+func (w *workerRun) o() string {
+	if w.origin == "" {
+		return "worker"
+	}
+	return w.origin
 }
 
 // submitAdversarial hands forbidden spends to the real pool. Refusal by the
@@ -252,16 +261,16 @@ func (w *workerRun) replayBlock(mined *hnet.Mined) {
 		for _, in := range mt.Ins {
 			consumed[in.Prev]++
 			if consumed[in.Prev] > 1 {
-				m.Violation("worker-block-consumes-outpoint-twice:"+kind, fmt.Sprintf("zone block %d names outpoint %s in %d inputs", num, in.Prev, consumed[in.Prev]),
+				m.Violation(w.o()+"-block-consumes-outpoint-twice:"+kind, fmt.Sprintf("zone block %d names outpoint %s in %d inputs", num, in.Prev, consumed[in.Prev]),
 					blockWit(map[string]any{"tx_index": ti, "tx": txHex(tx)}))
 			}
 		}
 		eff, reasons := w.led.Check(mt, num)
 		if len(reasons) > 0 {
-			m.Violation("worker-block-violates-ledger:"+strings.ReplaceAll(primary(reasons), ":", "-")+":"+kind,
-				fmt.Sprintf("zone block %d assembled by the worker and appended contains Qi tx %d (%x) that the reference ledger forbids: %s", num, ti, mt.Hash[:], strings.Join(reasons, ",")),
+			m.Violation(w.o()+"-block-violates-ledger:"+strings.ReplaceAll(primary(reasons), ":", "-")+":"+kind,
+				fmt.Sprintf("zone block %d (origin: %s) that was appended and executed contains Qi tx %d (%x) that the reference ledger forbids: %s", num, w.o(), ti, mt.Hash[:], strings.Join(reasons, ",")),
 				blockWit(map[string]any{"tx_index": ti, "tx": txHex(tx), "reasons": reasons}))
-			m.Eval("worker:qi-tx-in-block:forbidden", fmt.Sprintf("%d/%d", num, ti))
+			m.Eval(w.o()+":qi-tx-in-block:forbidden", fmt.Sprintf("%d/%d", num, ti))
 			continue
 		}
 		// ETXs emitted by the block for this transaction
@@ -272,7 +281,7 @@ func (w *workerRun) replayBlock(mined *hnet.Mined) {
 			}
 		}
 		if ok, desc := checkEtxs(mt.Hash, eff, views); !ok {
-			m.Violation("worker-block-etxs-mismatch:"+kind, fmt.Sprintf("zone block %d tx %d: %d outputs to other zones, converted %s; ETXs of the block for it: %s", num, ti, len(eff.External), eff.Converted, strings.Join(desc, " ")),
+			m.Violation(w.o()+"-block-etxs-mismatch:"+kind, fmt.Sprintf("zone block %d tx %d: %d outputs to other zones, converted %s; ETXs of the block for it: %s", num, ti, len(eff.External), eff.Converted, strings.Join(desc, " ")),
 				blockWit(map[string]any{"tx_index": ti, "tx": txHex(tx)}))
 		}
 		for k, o := range eff.Consumed {
@@ -281,12 +290,12 @@ func (w *workerRun) replayBlock(mined *hnet.Mined) {
 			}
 		}
 		w.led.Commit(eff)
-		m.Eval("worker:qi-tx-in-block:"+kind, fmt.Sprintf("%d/%d", num, ti))
+		m.Eval(w.o()+":qi-tx-in-block:"+kind, fmt.Sprintf("%d/%d", num, ti))
 		if len(eff.External) > 0 {
-			m.Eval("worker:qi-tx-in-block:with-external-output", "")
+			m.Eval(w.o()+":qi-tx-in-block:with-external-output", "")
 		}
 		if len(eff.ConvertedIdx) > 0 {
-			m.Eval("worker:qi-tx-in-block:with-conversion", "")
+			m.Eval(w.o()+":qi-tx-in-block:with-conversion", "")
 		}
 		delete(w.sent, tx.Hash())
 		delete(w.sentRaw, tx.Hash())
@@ -303,15 +312,15 @@ func (w *workerRun) replayBlock(mined *hnet.Mined) {
 		switch {
 		case !ok && qiHashes[c.Out.Hash]:
 			bad++
-			m.Violation("worker-db-mismatch:created-output-missing", fmt.Sprintf("after zone block %d output %s created by a Qi tx of the block is not in the UTXO key space", num, c.Out), blockWit(map[string]any{"outpoint": entryWit(c)}))
+			m.Violation(w.o()+"-db-mismatch:created-output-missing", fmt.Sprintf("after zone block %d output %s created by a Qi tx of the block is not in the UTXO key space", num, c.Out), blockWit(map[string]any{"outpoint": entryWit(c)}))
 		case !ok && c.Entry.Denom > types.MaxTrimDenomination:
 			bad++
-			m.Violation("worker-db-mismatch:unspent-output-vanished", fmt.Sprintf("after zone block %d output %s (denomination %d) is gone from the UTXO key space although no Qi tx of the block consumed it", num, c.Out, c.Entry.Denom), blockWit(map[string]any{"outpoint": entryWit(c)}))
+			m.Violation(w.o()+"-db-mismatch:unspent-output-vanished", fmt.Sprintf("after zone block %d output %s (denomination %d) is gone from the UTXO key space although no Qi tx of the block consumed it", num, c.Out, c.Entry.Denom), blockWit(map[string]any{"outpoint": entryWit(c)}))
 		case !ok:
 			w.led.Remove(c.Out) // trimmable denomination: removal by trimming is a supply event outside Qi transactions
 		case e != c.Entry:
 			bad++
-			m.Violation("worker-db-mismatch:entry-differs", fmt.Sprintf("after zone block %d output %s is %+v in the database, %+v in the reference ledger", num, c.Out, e, c.Entry), blockWit(map[string]any{"outpoint": entryWit(c)}))
+			m.Violation(w.o()+"-db-mismatch:entry-differs", fmt.Sprintf("after zone block %d output %s is %+v in the database, %+v in the reference ledger", num, c.Out, e, c.Entry), blockWit(map[string]any{"outpoint": entryWit(c)}))
 		}
 	}
 	minted := 0
@@ -327,12 +336,12 @@ func (w *workerRun) replayBlock(mined *hnet.Mined) {
 		}
 		if _, was := before[o]; was || consumed[o] > 0 {
 			bad++
-			m.Violation("worker-db-mismatch:spent-output-still-present", fmt.Sprintf("after zone block %d outpoint %s consumed by a Qi tx of the block is still in the UTXO key space", num, o), blockWit(map[string]any{"outpoint": entryWit(model.Created{Out: o, Entry: e})}))
+			m.Violation(w.o()+"-db-mismatch:spent-output-still-present", fmt.Sprintf("after zone block %d outpoint %s consumed by a Qi tx of the block is still in the UTXO key space", num, o), blockWit(map[string]any{"outpoint": entryWit(model.Created{Out: o, Entry: e})}))
 			continue
 		}
 		if qiHashes[o.Hash] {
 			bad++
-			m.Violation("worker-db-mismatch:unexpected-output-of-qi-tx", fmt.Sprintf("after zone block %d the UTXO key space holds %s (%+v) under the hash of a Qi tx of the block that does not create it", num, o, e), blockWit(map[string]any{"outpoint": entryWit(model.Created{Out: o, Entry: e})}))
+			m.Violation(w.o()+"-db-mismatch:unexpected-output-of-qi-tx", fmt.Sprintf("after zone block %d the UTXO key space holds %s (%+v) under the hash of a Qi tx of the block that does not create it", num, o, e), blockWit(map[string]any{"outpoint": entryWit(model.Created{Out: o, Entry: e})}))
 			continue
 		}
 		// coinbase / conversion / unlock output: enters the ledger outside Qi transactions
@@ -340,12 +349,12 @@ func (w *workerRun) replayBlock(mined *hnet.Mined) {
 		minted++
 	}
 	if nQi > 0 {
-		m.Eval("worker:block-with-qi-txs", fmt.Sprint(num))
+		m.Eval(w.o()+":block-with-qi-txs", fmt.Sprint(num))
 	} else {
-		m.Eval("worker:block-without-qi-txs", fmt.Sprint(num))
+		m.Eval(w.o()+":block-without-qi-txs", fmt.Sprint(num))
 	}
 	if minted > 0 {
-		m.Eval("worker:block-mints-outputs", "")
+		m.Eval(w.o()+":block-mints-outputs", "")
 	}
 	_ = bad
 }
